@@ -206,8 +206,12 @@ func piecesCases(r *Rng, n int, cf *CoqFile, st *Stats) {
 
 	// ---- substituteFinalPaths + accurateFinalByteCount
 	items = nil
-	relNames := []string{"a.js", "chunks/x-ABCDEFGH.js", "../up/y.js", "deep/er/z-12345678.js", "s.css", "e/n.HASH1234.js"}
-	assetNames := []string{"/out/img-AAAA1111.png", "/out/assets/b-BBBB2222.png", "/elsewhere/c.bin", "/out/media/QQQQ3333.svg"}
+	// names with characters that escapeFinalPath must escape (quotation mark, backslash, control
+	// characters) next to ordinary ones
+	relNames := []string{"a.js", "chunks/x-ABCDEFGH.js", "../up/y.js", "deep/er/z-12345678.js", "s.css", "e/n.HASH1234.js",
+		"d\"q-ABCDEFGH.js", "chunks/d\nq\t-1.js", "b\\s-2.js", "\x01\x1f\"\\.js", "é \x7f'.js"}
+	assetNames := []string{"/out/img-AAAA1111.png", "/out/assets/b-BBBB2222.png", "/elsewhere/c.bin", "/out/media/QQQQ3333.svg",
+		"/out/i\"m-CCCC3333.png", "/out/assets/i\nm\x0b.png"}
 	for i := 0; i < n; i++ {
 		prefix := randPrefix(r)
 		for len(prefix) < 4 {
@@ -271,10 +275,31 @@ func piecesCases(r *Rng, n int, cf *CoqFile, st *Stats) {
 			}
 			tab = append(tab, fmt.Sprintf("(%d,%d,%s)", p.Kind, p.Index, CBytes([]byte(v.PathBetweenChunks(fromDir, rel)))))
 		}
-		gout, _ := v.SubstituteFinalPaths(has, ps, joiner, fromDir)
-		gcount := v.AccurateFinalByteCount(has, ps, joiner, fromDir)
-		items = append(items, fmt.Sprintf("(%s,%s,%s,[%s],%s,%d)", CBool(has), piecesCoq(ps), CBytes(joiner), strings.Join(tab, ";"), CBytes(gout), gcount))
-		st.Note("subst", fmt.Sprint(ps)+public+fromDir, refs > 0)
+		isCSS := r.Chance(40)
+		gout, _ := v.SubstituteFinalPathsKind(has, ps, joiner, fromDir, isCSS)
+		gcount := v.AccurateFinalByteCountKind(has, ps, joiner, fromDir, isCSS)
+		items = append(items, fmt.Sprintf("(%s,%s,%s,%s,[%s],%s,%d)", CBool(isCSS), CBool(has), piecesCoq(ps), CBytes(joiner), strings.Join(tab, ";"), CBytes(gout), gcount))
+		st.Note(fmt.Sprintf("subst/css=%v", isCSS), fmt.Sprint(ps)+public+fromDir, refs > 0)
+		// the property's predicate on the real code: what stands for each reference reads back,
+		// as string contents of the output's language, as the path of the file it denotes
+		if has {
+			for _, p := range ps {
+				if p.Kind == 0 {
+					continue
+				}
+				var rel string
+				if p.Kind == 1 {
+					rel, _ = mockFS.Rel("/out", files[p.Index].AdditionalAbsPath)
+				} else {
+					rel = chunks[p.Index].FinalRelPath
+				}
+				want := v.PathBetweenChunks(fromDir, rel)
+				one, _ := v.SubstituteFinalPathsKind(true, []linker.VerifPiece{{Kind: p.Kind, Index: p.Index}, {}}, nil, fromDir, isCSS)
+				if got, ok := unescapeString(string(one), isCSS); !ok || got != want {
+					st.Fail("substituted-path-does-not-read-back", map[string]interface{}{"scenario": "escapeFinalPath", "isCSS": isCSS, "path": want, "publicPath": public}, string(one), want)
+				}
+			}
+		}
 		if has && gcount != len(gout) {
 			st.Fail("byte-count-differs-from-substituted-length", map[string]interface{}{"scenario": "accurateFinalByteCount", "pieces": fmt.Sprint(ps), "publicPath": public, "fromDir": fromDir}, gcount, len(gout))
 		}
@@ -286,7 +311,7 @@ func piecesCases(r *Rng, n int, cf *CoqFile, st *Stats) {
 			st.Fail("placeholder-survives-substitution", map[string]interface{}{"scenario": "substituteFinalPaths", "pieces": fmt.Sprint(ps), "prefix": prefix}, string(gout), "no occurrence of the prefix")
 		}
 	}
-	cf.AddCases("subst_cases", "bool * list rawpiece * bytes * list (Z * Z * bytes) * bytes * Z", "check_subst", items)
+	cf.AddCases("subst_cases", "bool * bool * list rawpiece * bytes * list (Z * Z * bytes) * bytes * Z", "check_subst", items)
 }
 
 func piecesData(ps []linker.VerifPiece) string {
@@ -308,4 +333,70 @@ func straddleRisk(ps []linker.VerifPiece, prefix string) bool {
 		}
 	}
 	return false
+}
+
+// unescapeString: independent reading of the contents of a double-quoted
+// string (JavaScript/JSON: \" \\ \uXXXX; CSS: \" \\ \<hex digits><space>);
+// a bare quotation mark, backslash or control character is an error
+func unescapeString(s string, isCSS bool) (string, bool) {
+	var out []byte
+	hexv := func(c byte) int {
+		switch {
+		case c >= '0' && c <= '9':
+			return int(c - '0')
+		case c >= 'a' && c <= 'f':
+			return int(c-'a') + 10
+		case c >= 'A' && c <= 'F':
+			return int(c-'A') + 10
+		}
+		return -1
+	}
+	for i := 0; i < len(s); i++ {
+		c := s[i]
+		if c == '"' || c < 0x20 {
+			return "", false
+		}
+		if c != '\\' {
+			out = append(out, c)
+			continue
+		}
+		i++
+		if i >= len(s) {
+			return "", false
+		}
+		e := s[i]
+		switch {
+		case e == '"' || e == '\\':
+			out = append(out, e)
+		case isCSS && hexv(e) >= 0:
+			v := 0
+			n := 0
+			for i < len(s) && hexv(s[i]) >= 0 && n < 6 {
+				v = v*16 + hexv(s[i])
+				i++
+				n++
+			}
+			if i >= len(s) || s[i] != ' ' || v > 255 {
+				return "", false
+			}
+			out = append(out, byte(v))
+		case !isCSS && e == 'u' && i+4 < len(s)+0 && i+4 <= len(s)-1+0:
+			v := 0
+			for k := 1; k <= 4; k++ {
+				h := hexv(s[i+k])
+				if h < 0 {
+					return "", false
+				}
+				v = v*16 + h
+			}
+			if v > 255 {
+				return "", false
+			}
+			out = append(out, byte(v))
+			i += 4
+		default:
+			return "", false
+		}
+	}
+	return string(out), true
 }
